@@ -531,6 +531,9 @@ func churn(r *hx.Rng, f *failures, stats map[string]int) {
 	var wg sync.WaitGroup
 	var stop int32
 	selfCheck := func(p []byte) bool { // payload = n copies of one byte value, n encoded in the first byte
+		if len(p) == 0 {
+			return true // the PUBLISH that cleared a retained message, forwarded to the current subscribers
+		}
 		if len(p) < 2 {
 			return false
 		}
@@ -567,7 +570,14 @@ func churn(r *hx.Rng, f *failures, stats map[string]int) {
 			}()
 			for k := 0; k < 400 && atomic.LoadInt32(&stop) == 0; k++ {
 				t := fmt.Sprintf("r/%d", rr.Intn(3))
-				c.write(mq.Publish(t, mk(byte(1+rr.Intn(250)), 2+rr.Intn(3000)), rr.Intn(2), true, false, 1+k))
+				if rr.Chance(30) {
+					t += fmt.Sprintf("/s%d", rr.Intn(2)) // siblings below a level that is pruned when both are cleared
+				}
+				pl := mk(byte(1+rr.Intn(250)), 2+rr.Intn(3000))
+				if rr.Chance(20) {
+					pl = nil // clears the retained message of the topic, concurrently with stores and lookups
+				}
+				c.write(mq.Publish(t, pl, rr.Intn(2), true, false, 1+k))
 			}
 			c.c.Close()
 		}(c, hx.NewRng(r.U64()))
@@ -1249,6 +1259,52 @@ func keepalive(f *failures, stats map[string]int) {
 		close(stop)
 		c.c.Close()
 	}()
+	// silent on a resumed session: the connection before it ended with an orderly DISCONNECT (its will discarded); the
+	// client comes back with the same CONNECT (or with a different will), is active for a while and then goes silent:
+	// that connection ends abnormally like any other, with the will its own CONNECT carried
+	for i, same := range []bool{true, false} {
+		wg.Add(1)
+		go func(i int, same bool) {
+			defer wg.Done()
+			id := fmt.Sprintf("resumed%d", i)
+			topic := fmt.Sprintf("will/silent-resumed%d", i)
+			first := &mq.ConnectOpts{WillTopic: topic, WillMsg: []byte("gone")}
+			if !same {
+				first = &mq.ConnectOpts{WillTopic: fmt.Sprintf("will/active-earlier%d", i), WillMsg: []byte("earlier")}
+			}
+			c, _, err := b.connectSession(id, 1, first, false)
+			if err != nil {
+				f.add("harness: %v", err)
+				return
+			}
+			c.write(mq.Pingreq())
+			c.read(2 * time.Second)
+			c.write(mq.Disconnect())
+			c.c.Close()
+			time.Sleep(300 * time.Millisecond)
+			c, present, err := b.connectSession(id, 1, &mq.ConnectOpts{WillTopic: topic, WillMsg: []byte("gone")}, false)
+			if err != nil {
+				f.add("harness: %v", err)
+				return
+			}
+			if !present {
+				f.add("harness: session of %s not resumed", id)
+			}
+			for t := 0; t < 2; t++ {
+				c.write(mq.Pingreq())
+				if p, err := c.read(2 * time.Second); err != nil || mq.Type(p) != mq.PINGRESP {
+					f.add("C19: PINGREQ of an active client on a resumed session was not answered by PINGRESP: %v %x", err, p)
+					return
+				}
+				time.Sleep(300 * time.Millisecond)
+			}
+			t0 := time.Now()
+			_, err = c.read(6 * time.Second)
+			if err == nil || strings.Contains(err.Error(), "timeout") {
+				f.add("C19: a client with keep-alive 1s on a resumed session that sent nothing for %v was not disconnected", time.Since(t0))
+			}
+		}(i, same)
+	}
 	// silent in the middle of a packet: the last bytes before the silence are the beginning of a packet (a link that
 	// dies mid-packet is what the keep-alive exists for)
 	for i, part := range [][]byte{{0x30, 0x14, 0x00, 0x03, 'a', '/', 'b'}, {0x30}} {
@@ -1314,7 +1370,7 @@ func keepalive(f *failures, stats map[string]int) {
 			got[pub.Topic] = true
 		}
 	}
-	for _, t := range []string{"will/silent0", "will/silent1", "will/silent-receiving", "will/partial0", "will/partial1"} {
+	for _, t := range []string{"will/silent0", "will/silent1", "will/silent-receiving", "will/partial0", "will/partial1", "will/silent-resumed0", "will/silent-resumed1"} {
 		if !got[t] {
 			f.add("C19: the will of a client dropped for inactivity (%s) was not published", t)
 		}
@@ -1327,6 +1383,77 @@ func keepalive(f *failures, stats map[string]int) {
 	w.c.Close()
 	b.shutdown(f, "keepalive")
 	stats["keepalive"]++
+}
+
+// graceful: a slow consumer leaves gracefully (C09).  The client subscribes to what it publishes itself, stops reading
+// and publishes more than its outgoing ring holds, so that the connection's processor is blocked on that ring while
+// further packets queue up in the incoming ring; then it sends a PINGREQ and - in the first variant - a DISCONNECT, and
+// closes.  The DISCONNECT was sent and received: no will.  Without it (second variant): exactly one will.
+func graceful(f *failures, stats map[string]int) {
+	for _, withDisconnect := range []bool{true, false} {
+		b := newBroker()
+		w, err := b.connect("gw", 60, nil)
+		if err != nil {
+			f.add("harness: %v", err)
+			return
+		}
+		w.write(mq.Subscribe(1, []string{"will/#"}, []int{0}))
+		w.read(5 * time.Second)
+		g, err := b.connect("graceful", 60, &mq.ConnectOpts{WillTopic: "will/graceful", WillMsg: []byte("gone")})
+		if err != nil {
+			f.add("harness: %v", err)
+			return
+		}
+		g.write(mq.Subscribe(1, []string{"g/echo"}, []int{0}))
+		if _, err := g.read(5 * time.Second); err != nil {
+			f.add("harness: no SUBACK: %v", err)
+			return
+		}
+		big := make([]byte, 30000)
+		sent := make(chan bool, 1)
+		go func() {
+			ok := true
+			for i := 0; i < 12 && ok; i++ {
+				ok = g.write(mq.Publish("g/echo", big, 0, false, false, 0)) == nil
+			}
+			ok = ok && g.write(mq.Pingreq()) == nil
+			if withDisconnect {
+				ok = ok && g.write(mq.Disconnect()) == nil
+			}
+			sent <- ok
+		}()
+		select {
+		case ok := <-sent:
+			if !ok {
+				f.add("harness: graceful: the client could not write its packets")
+			}
+		case <-time.After(20 * time.Second):
+			f.add("harness: graceful: the client's writes did not finish")
+		}
+		time.Sleep(200 * time.Millisecond)
+		g.c.Close()
+		wills := 0
+		for {
+			p, err := w.read(2500 * time.Millisecond)
+			if err != nil {
+				break
+			}
+			if mq.Type(p) == mq.PUBLISH {
+				if pub, _ := mq.ParsePublish(p); pub.Topic == "will/graceful" {
+					wills++
+				}
+			}
+		}
+		if withDisconnect && wills != 0 {
+			f.add("C09: a slow consumer that sent DISCONNECT (queued behind packets its blocked processor had not reached yet) and closed: the will was published %d time(s)", wills)
+		}
+		if !withDisconnect && wills != 1 {
+			f.add("C09: a slow consumer that closed without DISCONNECT: the will was published %d time(s), expected once", wills)
+		}
+		w.c.Close()
+		b.shutdown(f, "graceful")
+		stats["graceful"]++
+	}
 }
 
 func main() {
@@ -1371,6 +1498,8 @@ func main() {
 				if i == 0 {
 					keepalive(f, stats)
 				}
+			case "graceful":
+				graceful(f, stats)
 			}
 		}
 	}
